@@ -77,6 +77,11 @@ type Contract struct {
 	NonNil     bool // all pointer parameters are required to be non-nil
 	Exhaustive bool // decided by running the real function on every input of its (small) domain
 	Calls      []*CallSpec // obligations at call sites inside the function
+	Locks      bool        // model the hold state of mutexes (locks.go)
+	Acquires    int        // see locks.go
+	HasAcquires bool
+	LockProps  []string    // properties whose runs get the relock/unlock/balance obligations
+	GuardProps []string    // properties whose runs get the guarded-field obligations
 	Split      bool        // prove postconditions separately for each way into a return
 	SafetyOnly []string    // with NoSafety: kinds of safety obligations that are generated all the same
 	NoSafety   bool        // do not generate safety obligations (absence of panics is assumed)
@@ -104,6 +109,8 @@ type pkgSpec struct {
 	contracts []*Contract
 	source    string // "repo" or "mirror"
 	sweeps    []sweepSpec
+	guards    [][2]string // (Type.field, mutex field)
+	levels    [][2]string // (Type.mutex field, level)
 }
 
 type sweepSpec struct {
@@ -207,7 +214,7 @@ func parseContractFile(rel, src string) (*pkgSpec, error) {
 		isTop := func(l string) bool {
 			w, _ := splitWord(strings.TrimSpace(l))
 			switch w {
-			case "contract", "lemma", "spec", "sweep", "import", "end":
+			case "contract", "lemma", "spec", "sweep", "import", "end", "guarded", "locklevel":
 				return true
 			}
 			return false
@@ -281,6 +288,25 @@ func parseContractFile(rel, src string) (*pkgSpec, error) {
 			cur = nil
 		case "import":
 			ps.imports = append(ps.imports, rest)
+		case "locklevel":
+			// locklevel <Type>.<mutex field> <level>: see locks.go
+			f := strings.Fields(rest)
+			if len(f) != 2 || !strings.Contains(f[0], ".") {
+				return nil, fmt.Errorf("%s:%d: locklevel <Type>.<mutex field> <level>", rel, ln)
+			}
+			if _, err := strconv.Atoi(f[1]); err != nil {
+				return nil, fmt.Errorf("%s:%d: locklevel: level must be a number", rel, ln)
+			}
+			ps.levels = append(ps.levels, [2]string{f[0], f[1]})
+			cur = nil
+		case "guarded":
+			// guarded <Type>.<field> by <mutex field>: see locks.go
+			f := strings.Fields(rest)
+			if len(f) != 3 || f[1] != "by" || !strings.Contains(f[0], ".") {
+				return nil, fmt.Errorf("%s:%d: guarded <Type>.<field> by <mutex field>", rel, ln)
+			}
+			ps.guards = append(ps.guards, [2]string{f[0], f[2]})
+			cur = nil
 		case "contract":
 			// several blocks for the same function are merged into one contract
 			cur = nil
@@ -426,6 +452,22 @@ func parseContractFile(rel, src string) (*pkgSpec, error) {
 				if w, r := splitWord(rest); w == "except" {
 					cur.SafetyOnly = append(cur.SafetyOnly, strings.Fields(r)...)
 				}
+			case "locks":
+				// lock obligations (relock, unlock, balance, guarded fields): see locks.go
+				cur.Locks = true
+				cur.LockProps = append(cur.LockProps, strings.Fields(rest)...)
+			case "acquires":
+				// acquires N: called with no lock of level >= N held; takes only locks of level >= N
+				cur.Locks = true
+				n, err := strconv.Atoi(strings.TrimSpace(rest))
+				if err != nil {
+					return nil, fmt.Errorf("%s:%d: acquires <level>", rel, ln)
+				}
+				cur.Acquires, cur.HasAcquires = n, true
+			case "guards":
+				// guarded-field obligations, generated in the runs of the listed properties
+				cur.Locks = true
+				cur.GuardProps = append(cur.GuardProps, strings.Fields(rest)...)
 			case "split":
 				// postconditions are proved once per edge into a returning block (a
 				// case split along the last branching, e.g. the arms of a switch)
